@@ -25,6 +25,10 @@ struct Scenario {
   int gated_from = -1;
   // controller context, deterministic arena active: build the objects under test, reset monitors
   std::function<void()> setup;
+  // optional: library calls that prepare the scenario (e.g. a sequential prefix). Runs to completion in a thread of
+  // its own before any virtual thread starts, without scheduling points; its thread-exit destructors run too,
+  // so no library thread-local state of the controller is ever created
+  std::function<void()> prologue;
   // body of virtual thread `tid` (library TLS destructors run under the scheduler afterwards)
   std::function<void(int)> body;
   // controller context after every virtual thread has finished (or after a fatal stop: not called)
